@@ -13,6 +13,7 @@
 import SF.Proofs.CborEnc
 import SF.Proofs.CborTop
 import SF.Proofs.UbjBridgeTop
+import SF.Proofs.JsonSrcTop
 namespace SF.Props.C01
 open SF SF.Cbor SF.Cbor.Cst
 
@@ -123,3 +124,67 @@ example :
   decide +kernel
 
 end SF.PropsUbj.C01
+
+
+/-! ## JSON -/
+namespace SF.PropsJson.C01
+open SF SF.Json SF.Json.Parse SF.Json.ParseP SF.Json.Grammar
+open SF.Json.Enc (plain utf8Tree jvalue toJ)
+
+/-- THE JSON ENCODER WRITES GRAMMATICAL JSON: for every tree without floats whose numbers are in
+the range of their kind (`plain`) and all options (HTML escaping …), started on a fresh writer at
+top level, the run succeeds and the bytes written are the wire form of a grammatical text
+`toJ o t` (SF/Proofs/JsonGrammar.lean) all of whose tokens denote, and whose value is the value
+of the tree with every string and key sanitized (= the tree's value when they are UTF-8) -/
+theorem json_encoder_writes_grammar (o : SF.Json.Enc.Enc) (t : ETree) (hp : plain t = true)
+    (hw : o.w = {}) (ha : o.inArray.current = false) :
+    (SF.Json.Enc.run o (t.events.map .ev)).2 = (none, .ok) ∧
+    SF.Json.Enc.encAll o (t.events.map .ev) = (toJ o t).wire ∧
+    (toJ o t).ok = true ∧ (toJ o t).sem = true ∧ (toJ o t).value = jvalue t ∧
+    (utf8Tree t = true → jvalue t = t.value) :=
+  SF.Props.JsonSrc.json_encoder_writes_grammar o t hp hw ha
+
+/-- C01 for JSON: for EVERY event tree `t` without floats whose numbers are in range and whose
+strings and keys are well-formed UTF-8 (any nesting, announced and unknown lengths) and all
+encoder options, the encoder's output is accepted by the JSON PARSER, which delivers one
+contract-conforming document that builds EXACTLY the value of `t`; the RFC 8259 reference
+decoder reads the same value. -/
+theorem json_roundtrip (o : SF.Json.Enc.Enc) (t : ETree) (hp : plain t = true) (hu : utf8Tree t = true)
+    (hw : o.w = {}) (ha : o.inArray.current = false) :
+    (SF.Json.Enc.run o (t.events.map .ev)).2 = (none, .ok) ∧
+    (parse {} (SF.Json.Enc.encAll o (t.events.map .ev))).2 = none ∧
+    build (events (parse {} (SF.Json.Enc.encAll o (t.events.map .ev))).1) = some t.value ∧
+    WF1 (events (parse {} (SF.Json.Enc.encAll o (t.events.map .ev))).1) = true ∧
+    SF.Json.Cst.decode (SF.Json.Enc.encAll o (t.events.map .ev)) = .ok [t.value] false :=
+  SF.Props.JsonSrc.json_roundtrip o t hp hu hw ha
+
+/-- … without the UTF-8 hypothesis: the value read back is the tree's value with every string and
+key sanitized (invalid bytes → U+FFFD: the documented representation change of the format) -/
+theorem json_roundtrip_sanitized (o : SF.Json.Enc.Enc) (t : ETree) (hp : plain t = true)
+    (hw : o.w = {}) (ha : o.inArray.current = false) :
+    (SF.Json.Enc.run o (t.events.map .ev)).2 = (none, .ok) ∧
+    (parse {} (SF.Json.Enc.encAll o (t.events.map .ev))).2 = none ∧
+    events (parse {} (SF.Json.Enc.encAll o (t.events.map .ev))).1 = (toJ o t).events ∧
+    build (events (parse {} (SF.Json.Enc.encAll o (t.events.map .ev))).1) = some (jvalue t) ∧
+    WF1 (events (parse {} (SF.Json.Enc.encAll o (t.events.map .ev))).1) = true ∧
+    SF.Json.Cst.decode (SF.Json.Enc.encAll o (t.events.map .ev)) = .ok [jvalue t] false :=
+  SF.Props.JsonSrc.json_roundtrip_sanitized o t hp hw ha
+
+/-- … and however the encoder's output reaches the parser: `Write` per chunk, EVERY chunking -/
+theorem json_roundtrip_chunks (o : SF.Json.Enc.Enc) (t : ETree) (hp : plain t = true)
+    (hw : o.w = {}) (ha : o.inArray.current = false) (cs : List Bytes)
+    (hcs : cs.flatten = SF.Json.Enc.encAll o (t.events.map .ev)) :
+    (writeChunks {} cs).2 = none ∧ build (events (writeChunks {} cs).1) = some (jvalue t) ∧
+    WF1 (events (writeChunks {} cs).1) = true ∧ (utf8Tree t = true → jvalue t = t.value) :=
+  SF.Props.JsonSrc.json_roundtrip_chunks o t hp hw ha cs hcs
+
+/-- non-vacuity: `{"a":[-5,"\"é<",18446744073709551615],"b":{},"":[[],{}]}` with HTML escaping;
+the kernel runs encoder and parser -/
+example : plain SF.Props.JsonSrc.exE = true ∧ utf8Tree SF.Props.JsonSrc.exE = true ∧
+    (parse {} (SF.Json.Enc.encAll { escapeHTML := true } (SF.Props.JsonSrc.exE.events.map .ev))).2 = none ∧
+    (match build (events (parse {} (SF.Json.Enc.encAll { escapeHTML := true } (SF.Props.JsonSrc.exE.events.map .ev))).1) with
+     | some v => v == SF.Props.JsonSrc.exE.value
+     | none => false) = true := by
+  decide +kernel
+
+end SF.PropsJson.C01
